@@ -524,10 +524,7 @@ Section WithV.
     if is_samples c then
       if negb (cbase_eqb (base_of c) sb) && cls_eqb c TSamples
       then do _ <- multiplicity hr c; Ok tt else Ok tt
-    else
-      if negb (cbase_eqb (base_of c) sb) && negb (cbase_eqb (base_of c) BGlobal) && cbase_eqb sb BTime
-      then match n_slices hr with None => Err EType | Some _ => Ok tt end
-      else Ok tt.
+    else Ok tt.
 
   Definition get_subset (e : ext) (dim idx : nat) : res ext :=
     do hr <- subset_hdr (hdr_of e) dim;
